@@ -50,6 +50,11 @@ HTMLPART = z3.Function("mhtml_html_part", BytesS, BytesS)
 BIO_OF = z3.Function("bytesio_of", BytesS, BioS)
 RH_AT = z3.Function("read_html_result", BioS, z3.IntSort(), HcS)
 RH_N = z3.Function("read_html_count", BioS, z3.IntSort())
+H2T = z3.Function("html_to_text", S, S)                 # msg._html_to_text at its call sites (deterministic: C16 assumes the same)
+LLH = z3.Function("looks_like_html", S, z3.BoolSort())  # msg._looks_like_html at its call sites
+MsgS = ext_sort("MsgObj")
+BODY = z3.Function("msg_body", MsgS, S)
+BODY_NONE = z3.Function("msg_body_is_none", MsgS, z3.BoolSort())
 
 
 # ------------------------------------------------------------------- ghost log --
@@ -223,8 +228,27 @@ def install(reg):
     reg.ext_models["str.strip"] = lambda ex, st, args, kwargs, node: [(st, VStr(STRIP(args[0].t)))] if len(args) == 1 else \
         [(st, VStr(z3.String(fresh_name("strip"))))]
     reg.ext_models["str.replace"] = lambda ex, st, args, kwargs, node: [(st, VStr(REPLACE(args[0].t, args[1].t, args[2].t)))]
+    reg.ext_models[("new", "msg_parser.MsOxMessage")] = new_msg
+    reg.ext_models[("new", "MsOxMessage")] = new_msg
+    reg.attr_models[("MsgObj", "body")] = None       # placeholder: forking attribute, see C17Executor.get_attr
+    del reg.attr_models[("MsgObj", "body")]
+    reg.ext_models[("new", "EmailContent")] = new_record("EmailContent")
     reg.method_models[("EpubCtx", "read_text")] = m_read_text
     reg.method_models[("EpubCtx", "exists")] = lambda ex, st, o, a, k, n: [(st, VBool(z3.Bool(fresh_name("exists"))))]
+
+
+def new_msg(ex, st, args, kwargs, node):
+    ex.exc_any(st.fork(), f"{ex.loc(node)} MsOxMessage()")      # OLE parsing may fail
+    m = VExt("MsgObj")
+    st.ghost["msgs"] = st.ghost.get("msgs", ()) + (m,)
+    return [(st, m)]
+
+
+def msg_body(ex, st, obj):
+    """msg.body: None or the body string (ASSUMED view of msg_parser) -> [(state, V)]."""
+    a = st.fork().assume(BODY_NONE(obj.t))
+    b = st.assume(z3.Not(BODY_NONE(obj.t)))
+    return [(a, NONE), (b, VStr(BODY(obj.t)))]
 
 
 def m_read_text(ex, st, obj, args, kwargs, node):
@@ -278,6 +302,8 @@ def text_from_parser(st, v, p, allow):
         n = a.decl().name()
         if n == "walker_extract" and "extract" in allow and a.arg(0).eq(TREE(p.t)):
             good = True
+        elif n.startswith("fn_of_tree:") and "extract" in allow and all(x.eq(TREE(p.t)) for x in a.children()):
+            good = True          # some other rendering of the same tree (module-level helper applied to the tree only)
         elif n == "get_text_of" and "get_text" in allow and a.arg(0).eq(p.t):
             good = True
         else:
@@ -316,9 +342,9 @@ def contracts():
         ensures=[("the-shared-builder-is-fed-the-body-unmodified-and-never-closed", h2t_fed),
                  ("the-markup-itself-is-never-returned-as-text", h2t_no_markup),
                  ("text-is-the-rendering-by-the-walker-of-the-tree-the-builder-filled", lambda c: z3.Or(z3.Not(h2t_no_markup(c)), h2t_text(c)))],
-        raises=[], total=True,
-        result_maker=lambda ex, st, ctx: VStr(z3.String(fresh_name("html_to_text"))),
-        note="one _HtmlTreeBuilder, fed the parameter, never closed; result = strip/replace of walker.extract(tree); never raises",
+        raises=[Raises("Exception", sub=True, label="totality is C16's assumption, not C17's subject")],
+        result_maker=lambda ex, st, ctx: VStr(H2T(ctx.args["html_text"].t)) if isinstance(ctx.args.get("html_text"), VStr) else VStr(z3.String(fresh_name("html_to_text"))),
+        note="one _HtmlTreeBuilder, fed the parameter, never closed; result = strip/replace of a rendering of the tree",
     ))
 
     # -- html.read_html (generator) --------------------------------------------------------------------------------------
@@ -442,7 +468,29 @@ def contracts():
                  ("chapter-text-is-get_text()-of-the-fresh-extractor", ch_text)],
         raises=[Raises("Exception", sub=True, label="failure surface is C01's obligation")],
     ))
+    # -- msg.read_msg_format_mail: an HTML body reaches the result only through _html_to_text ------------------------------
+    def route_yield(ex, st, y):
+        rec = record_of(st, y)
+        msgs = st.ghost.get("msgs", ())
+        if rec is None or rec[0] != "EmailContent" or len(msgs) != 1:
+            return z3.BoolVal(False)
+        bp = rec[1].get("body_plain")
+        if not isinstance(bp, VStr):
+            return z3.BoolVal(False)
+        m = msgs[0].t
+        raw = z3.If(BODY_NONE(m), z3.StringVal(""), BODY(m))
+        return z3.Implies(LLH(raw), bp.t == H2T(raw))
+    unk = Maker(lambda ex, st, n: VUnk(n), desc="any")
+    for helper, prm in (("_parse_multi_recipients", "raw"), ("_extract_msg_attachments", "file_bytes")):
+        out.append(FnContract(target=f"{MSG}::{helper}", params=[(prm, unk)], assumed=True, may_raise_any=True,
+                              result_maker=lambda ex, st, ctx: VUnk("helper-result"), note="not C17's subject: any value, may raise"))
+    rm = FnContract(
+        target=f"{MSG}::read_msg_format_mail", params=[("file_like", P_BIO), ("path", P_UNK)], generator=True,
+        raises=[Raises("Exception", sub=True, label="failure surface is C01's obligation")],
+    )
+    rm.yield_check = ("a-body-recognised-as-HTML-reaches-body_plain-only-through-_html_to_text", route_yield)
+    out.append(rm)
     return out
 
 
-TARGETS = (f"{MSG}::_html_to_text", f"{HTML}::read_html", f"{MHTML}::read_mhtml", f"{EPUB}::_extract_chapter")
+TARGETS = (f"{MSG}::read_msg_format_mail", f"{MSG}::_html_to_text", f"{HTML}::read_html", f"{MHTML}::read_mhtml", f"{EPUB}::_extract_chapter")
